@@ -298,6 +298,31 @@ pub struct Decode {
     pub error: Option<String>,
     /// how many extra polls after end-of-stream returned data (must be 0)
     pub polls_after_eos_with_data: u32,
+    /// samples delivered but not kept (discard mode)
+    pub delivered: u64,
+}
+
+/// When set, `decode_all*` counts delivered samples instead of keeping them
+/// (so that the allocation monitor sees the crate's memory, not the harness's).
+pub static DISCARD: std::sync::atomic::AtomicBool = std::sync::atomic::AtomicBool::new(false);
+
+impl Decode {
+    /// bookkeeping after a chunk was appended; true when the output cap is exceeded
+    fn after_chunk(&mut self, cap: usize) -> bool {
+        if DISCARD.load(std::sync::atomic::Ordering::Relaxed) {
+            self.delivered += self.samples.len() as u64;
+            self.samples.clear();
+        }
+        if self.delivered as usize + self.samples.len() > cap {
+            self.error = Some("OUTPUT-CAP".into());
+            true
+        } else {
+            false
+        }
+    }
+    pub fn total_delivered(&self) -> u64 {
+        self.delivered + self.samples.len() as u64
+    }
 }
 
 fn meta_of<M: Metadata>(m: &M) -> Meta {
@@ -306,8 +331,13 @@ fn meta_of<M: Metadata>(m: &M) -> Meta {
 
 /// Reads a whole stream through the chosen front-end with read size `n` (in the front-end's unit).
 pub fn decode_all<R: Read>(r: R, kind: Rd, n: usize) -> Decode {
+    decode_all_capped(r, kind, n, usize::MAX)
+}
+
+/// As `decode_all`, but stops (error "OUTPUT-CAP") once more than `cap` samples were delivered.
+pub fn decode_all_capped<R: Read>(r: R, kind: Rd, n: usize, cap: usize) -> Decode {
     let n = n.max(1);
-    let mut out = Decode { meta: None, samples: vec![], error: None, polls_after_eos_with_data: 0 };
+    let mut out = Decode { meta: None, samples: vec![], error: None, polls_after_eos_with_data: 0, delivered: 0 };
     match kind {
         Rd::SampleRead | Rd::SampleFill | Rd::SampleToEnd | Rd::SampleIter => {
             let mut rd = match FlacSampleReader::new(r) {
@@ -324,7 +354,12 @@ pub fn decode_all<R: Read>(r: R, kind: Rd, n: usize) -> Decode {
                     loop {
                         match rd.read(&mut buf) {
                             Ok(0) => break,
-                            Ok(k) => out.samples.extend_from_slice(&buf[..k]),
+                            Ok(k) => {
+                                out.samples.extend_from_slice(&buf[..k]);
+                                if out.after_chunk(cap) {
+                                    return out;
+                                }
+                            }
                             Err(e) => {
                                 out.error = Some(format!("{e:?}"));
                                 return out;
@@ -347,6 +382,9 @@ pub fn decode_all<R: Read>(r: R, kind: Rd, n: usize) -> Decode {
                                 let k = n.min(b.len());
                                 out.samples.extend_from_slice(&b[..k]);
                                 rd.consume(k);
+                                if out.after_chunk(cap) {
+                                    return out;
+                                }
                             }
                             Err(e) => {
                                 out.error = Some(format!("{e:?}"));
@@ -379,7 +417,12 @@ pub fn decode_all<R: Read>(r: R, kind: Rd, n: usize) -> Decode {
                     loop {
                         match it.next() {
                             None => break,
-                            Some(Ok(s)) => out.samples.push(s),
+                            Some(Ok(s)) => {
+                                out.samples.push(s);
+                                if out.after_chunk(cap) {
+                                    return out;
+                                }
+                            }
                             Some(Err(e)) => {
                                 out.error = Some(format!("{e:?}"));
                                 return out;
@@ -395,7 +438,7 @@ pub fn decode_all<R: Read>(r: R, kind: Rd, n: usize) -> Decode {
             }
         }
         Rd::ByteLE | Rd::ByteBE | Rd::ByteFillLE => {
-            fn run<R: Read, E: flac_codec::byteorder::Endianness>(r: R, be: bool, fill: bool, n: usize, out: &mut Decode) {
+            fn run<R: Read, E: flac_codec::byteorder::Endianness>(r: R, be: bool, fill: bool, n: usize, cap: usize, out: &mut Decode) {
                 use std::io::BufRead;
                 let mut rd: FlacByteReader<R, E> = match FlacByteReader::new(r) {
                     Ok(x) => x,
@@ -410,6 +453,14 @@ pub fn decode_all<R: Read>(r: R, kind: Rd, n: usize) -> Decode {
                 let mut bytes: Vec<u8> = vec![];
                 let mut buf = vec![0u8; n];
                 loop {
+                    if DISCARD.load(std::sync::atomic::Ordering::Relaxed) {
+                        out.delivered += (bytes.len() / bps.div_ceil(8).max(1) as usize) as u64;
+                        bytes.clear();
+                    }
+                    if out.delivered as usize + bytes.len() / 4 > cap {
+                        out.error = Some("OUTPUT-CAP".into());
+                        break;
+                    }
                     if fill {
                         match rd.fill_buf() {
                             Ok([]) => break,
@@ -450,9 +501,9 @@ pub fn decode_all<R: Read>(r: R, kind: Rd, n: usize) -> Decode {
                 out.samples = flacref::pcm::from_bytes(&bytes[..bytes.len() - bytes.len() % bpsb], bps, be);
             }
             match kind {
-                Rd::ByteBE => run::<R, BigEndian>(r, true, false, n, &mut out),
-                Rd::ByteLE => run::<R, LittleEndian>(r, false, false, n, &mut out),
-                _ => run::<R, LittleEndian>(r, false, true, n, &mut out),
+                Rd::ByteBE => run::<R, BigEndian>(r, true, false, n, cap, &mut out),
+                Rd::ByteLE => run::<R, LittleEndian>(r, false, false, n, cap, &mut out),
+                _ => run::<R, LittleEndian>(r, false, true, n, cap, &mut out),
             }
         }
         Rd::Channel => {
@@ -495,6 +546,9 @@ pub fn decode_all<R: Read>(r: R, kind: Rd, n: usize) -> Decode {
                     }
                 };
                 rd.consume(take);
+                if out.after_chunk(cap) {
+                    return out;
+                }
             }
             for _ in 0..3 {
                 if let Ok(b) = rd.fill_buf() {
